@@ -157,14 +157,15 @@ func walkExpect(cm ConfigMap, files []walkFile, what string) {
 }
 
 func walkCandidates() []walkFile {
-	return []walkFile{{rel: "a.toml", toml: true}, {rel: "B.TOML", toml: true}, {rel: "c.txt"}, {rel: "sub/d.toml", toml: true}}
+	// a hidden file sorts before everything else: a walk that gives up on it must not lose the others
+	return []walkFile{{rel: "a.toml", toml: true}, {rel: "B.TOML", toml: true}, {rel: "c.txt"}, {rel: "sub/d.toml", toml: true}, {rel: ".h.toml", toml: true}, {rel: ".keep"}}
 }
 
 // HarnessC12Walk: the real loadDirectory over a directory that is missing or holds any combination of good,
 // broken (syntax error, unknown field, rejected value, empty) and non-TOML files, one of them nested.
 func HarnessC12Walk() {
 	defer walkTempDir()()
-	files := walkCandidates()[:verifrt.Param("NF", 4)]
+	files := walkCandidates()[:verifrt.Param("NF", 6)]
 	dirPresent := verifrt.Bool("dir.present")
 	walkPopulate(userKeyboard, dirPresent, files, "f")
 	cm := make(ConfigMap)
@@ -196,7 +197,7 @@ func HarnessC12Load() {
 	var present [4]bool
 	allPresent := true
 	for d := 0; d < 4; d++ {
-		files[d] = []walkFile{{rel: "k.toml", toml: true}, {rel: "sub/z.toml", toml: true}}[:verifrt.Param("NF", 1)]
+		files[d] = []walkFile{{rel: "k.toml", toml: true}, {rel: ".keep"}, {rel: "sub/z.toml", toml: true}}[:verifrt.Param("NF", 2)]
 		present[d] = verifrt.Bool(verifrt.N("dir.present", d))
 		if mask := verifrt.Param("DIRS", -1); mask >= 0 {
 			present[d] = mask&(1<<uint(d)) != 0
@@ -232,7 +233,7 @@ func HarnessC12Load() {
 	}
 	has := func(fs []walkFile, v uint16) bool {
 		for i := range fs {
-			if fs[i].present && fs[i].quality == 0 && fs[i].vendor == v {
+			if fs[i].toml && fs[i].present && fs[i].quality == 0 && fs[i].vendor == v {
 				return true
 			}
 		}
